@@ -28,7 +28,7 @@ INTENSITIES = [Fraction(1, 2), Fraction(1), Fraction(2), Fraction(3), Fraction(5
 def translate():
     from translator import registry
 
-    return registry.generate("Cbca", "KernelsCbca", "KernelsCbcaSteps")
+    return registry.generate("Cbca", "KernelsCbca", "KernelsCbcaSteps", "KernelsCbcaGlue")
 
 
 # --------------------------------------------------------------------------------------------
@@ -151,6 +151,135 @@ def kernel_cross_check(ctx, report, status):
             if problems <= 3:
                 status.problem("translator", f"translated cross_support evaluates differently from the real function on image={img} "
                                f"len_arms={dist} intensity={inten}", f"real={real} interpret={whole} per_pixel={px} bounds={bounds}")
+
+
+# --------------------------------------------------------------------------------------------
+# the regenerated glue (translator/gen_kernels_cbca_glue.py, Generated/KernelsCbcaGlue.lean): translator cross-check
+# --------------------------------------------------------------------------------------------
+def glue_cross_check(ctx, report, status):
+    """The REAL `cost_volume_aggregation` / `computes_cross_supports`, instrumented from outside (the module-level names
+    `cross_support`, `cbca_step_2`, `cbca_step_4` of pandora.aggregation.cbca are wrapped for the duration of the call; /repo
+    is not touched), against the translator's exact evaluation of what it read:
+      * the shape of every array handed to `cross_support` (left, each shifted right image) vs `evaluate_crop`;
+      * which shifted right support, which `range_col` / `range_col_right` lists steps 2 and 4 receive vs `iRight`,
+        `facingMask`, `leftCol`, `facingCol`;
+      * every cell of the aggregated volume vs `evaluate_plane` (exact fractions, one float32 rounding of the quotient),
+        the margin vs the input, `cmax` vs `cmaxUpdate`.
+    A mismatch means the translator misreads Python/numpy -> `status.problem("translator", …)`."""
+    import random
+
+    from translator import gen_kernels_cbca_glue as glue
+    from translator import gen_kernels_cbca_steps
+
+    try:
+        ag, sup = glue.read_all()
+        steps = gen_kernels_cbca_steps.kernels()
+    except Exception:  # Unsupported: already reported by build_and_audit (translate())  # pylint: disable=broad-except
+        return
+    report.translator_checks += 1
+    K = glue.all_kernels(ag, sup)
+    _, cbca = ad._mods()  # pylint: disable=protected-access
+    rng = random.Random(ctx.seed * 104729 + 77)
+    problems = []
+
+    def problem(what, detail):
+        problems.append(what)
+        if len(problems) <= 3:
+            status.problem("translator", f"translated glue of cbca evaluates differently from the real function: {what}", detail)
+
+    for _ in range(ctx.n(36, 300)):
+        case = gen_full_case(rng, source=rng.choice(["synthetic", "synthetic", "sad"]))
+        H, W, off, subpix = case["H"], case["W"], case["off"], case["subpix"]
+        disp = [frac(d) for d in case["disp"]]
+        left = ad.make_image(case["imL"], case["mskL"])
+        right = ad.make_image(case["imR"], case["mskR"])
+        cv_in = cv_array(case)
+        cvds = ad.make_cv(cv_in, [float(d) for d in disp], subpix, off)
+        seen = {"cross": [], "step2": [], "step4": []}
+        real = {n: getattr(cbca, n) for n in ("cross_support", "cbca_step_2", "cbca_step_4")}
+
+        def w_cross(image, *a, _f=real["cross_support"]):
+            seen["cross"].append(tuple(image.shape))
+            return _f(image, *a)
+
+        def w_step(tag, f):
+            def g(first, *rest):
+                seen[tag].append((rest[-3] if tag == "step2" else rest[-3], [int(v) for v in rest[-2]], [int(v) for v in rest[-1]]))
+                return f(first, *rest)
+            return g
+
+        from pandora import aggregation
+
+        obj = aggregation.AbstractAggregation(**{"aggregation_method": "cbca", "cbca_intensity": float(frac(case["intensity"])),
+                                                 "cbca_distance": int(case["dist"])})
+        try:
+            cbca.cross_support = w_cross
+            cl, cr = obj.computes_cross_supports(left, right, cvds)
+            cbca.cbca_step_2 = w_step("step2", real["cbca_step_2"])
+            cbca.cbca_step_4 = w_step("step4", real["cbca_step_4"])
+            cross_shapes = list(seen["cross"])
+            obj.cost_volume_aggregation(left, right, cvds)
+        except Exception as exc:  # pylint: disable=broad-except
+            report.count("glue_real_function_raised")
+            report.notes.append(f"glue cross-check: the real function raised {type(exc).__name__}: {exc}"[:200])
+            continue
+        finally:
+            for n, f in real.items():
+                setattr(cbca, n, f)
+        report.count("glue_cost_volume_aggregation_calls")
+        out = np.array(cvds["cost_volume"].data)
+        # ---- crops of computes_cross_supports
+        want = [glue.evaluate_crop(K, "leftCrop", H, W, off)[2:]]
+        for k in range(subpix):
+            want.append(glue.evaluate_crop(K, "rightCrop", H, W if k == 0 else W - 1, off, k)[2:])
+        if [tuple(s) for s in cross_shapes] != [tuple(s) for s in want]:
+            problem("shapes of the arrays handed to cross_support", f"case H={H} W={W} off={off} subpix={subpix}: real {cross_shapes} translated {want}")
+        # ---- the volume the loop works on, and where the result goes
+        r0, c0, h, w = glue.evaluate_crop(K, "cvCrop", H, W, off)
+        wb = glue.evaluate_crop(K, "writeBack", H, W, off)
+        cl_l = np.array(cl).astype(int).tolist()
+        cr_l = [np.array(c).astype(int).tolist() for c in cr]
+        for k, d in enumerate(disp):
+            sel = glue.ev_scalar(K["iRight"], d, subpix)
+            if k < len(seen["step2"]):
+                arr, rc, rcr = seen["step2"][k]
+                wr = len(cr_l[sel][0]) if 0 <= sel < len(cr_l) and cr_l[sel] else 0
+                idx = [x for x in range(w) if glue.ev_scalar(K["facingMask"], x, d, wr)]
+                t_rc = [glue.ev_scalar(K["leftCol"], x, d) for x in idx]
+                t_rcr = [glue.ev_scalar(K["facingCol"], x, d) for x in idx]
+                which = [i for i, c in enumerate(cr) if c.shape == arr.shape and np.array_equal(c, arr)]
+                if sel not in which or rc != t_rc or rcr != t_rcr or seen["step4"][k][1:] != (rc, rcr) or not np.array_equal(seen["step4"][k][0], arr):
+                    problem("wiring of cbca_step_2 / cbca_step_4", f"disp {d} subpix {subpix}: real support {which} cols {rc} {rcr}; translated {sel} {t_rc} {t_rcr}")
+                    continue
+            cvp = [[NANV if math.isnan(cv_in[r0 + y, c0 + x, k]) else Fraction(float(cv_in[r0 + y, c0 + x, k])) for x in range(w)] for y in range(h)]
+            aggp = [[glue.evaluate_init(ag, cvp[y][x]) for y in range(h)] for x in range(w)]
+            res, plane = glue.evaluate_plane(ag, steps, cvp, aggp, cl_l, cr_l, d, subpix)
+            report.count("glue_planes")
+            if res != "ok":
+                problem("one iteration of the disparity loop", f"disp {d}: translated reading ends in {res}, the real function returned")
+                continue
+            for y in range(H):
+                for x in range(W):
+                    inside = wb[0] <= y < wb[0] + wb[2] and wb[1] <= x < wb[1] + wb[3]
+                    if inside:
+                        q = plane[x - wb[1]][y - wb[0]]
+                        exp = np.float32(np.nan) if q == NANV else np.float32(q.numerator) / np.float32(q.denominator)
+                    else:
+                        exp = cv_in[y, x, k]
+                    if not same_f32(out[y, x, k], exp):
+                        problem("aggregated cell", f"cell ({y},{x}) disp {d}: real {out[y, x, k]} translated {exp}; case H={H} W={W} off={off} subpix={subpix}")
+                        break
+                else:
+                    continue
+                break
+        cmax = glue.ev_scalar(K["cmaxUpdate"], Fraction(100), int(case["dist"]))
+        if Fraction(float(cvds.attrs["cmax"])) != cmax:
+            problem("cmax", f"real {cvds.attrs['cmax']} translated {cmax}")
+    if problems:
+        report.count("glue_cross_check_problems", len(problems))
+
+
+NANV = "nan"
 
 
 # --------------------------------------------------------------------------------------------
@@ -661,6 +790,7 @@ def run(ctx, report, status):
     rng = ctx.rng
     kernel_cross_check(ctx, report, status)
     steps_kernels.cross_check(ctx, report, status, ctx.n(120, 1500))  # cbca_step_1..4 regenerated (T14, array-state kernels)
+    glue_cross_check(ctx, report, status)  # the numpy glue regenerated (Generated/KernelsCbcaGlue.lean)
     for name, case in core.load_corpus(PROP):
         check_case(ctx, report, case.get("input", case), "corpus:" + name, rule, independence=True)
     for case in directed_arms():
